@@ -392,6 +392,15 @@ VARIANTS['C14'] = [
     V('emsg v0 sets the v1 field',
       [('dashlive/server/events/repeating_event_base.py', "                kwargs['presentation_time_delta'] = time_delta", "                kwargs['presentation_time'] = time_delta")],
       'R14.3', 'create_emsg_boxes'),
+    V('emsg v0 delta measured from the end of the segment',
+      [('dashlive/server/events/repeating_event_base.py', "                time_delta = presentation_time - seg_start", "                time_delta = presentation_time - seg_end")],
+      'R14.3', 'create_emsg_boxes'),
+    V('neutral: v0 delta without the intermediate local',
+      [('dashlive/server/events/repeating_event_base.py', "                time_delta = presentation_time - seg_start\n                kwargs['presentation_time_delta'] = time_delta", "                kwargs['presentation_time_delta'] = presentation_time - seg_start")]),
+    V('pts masked with a 34 bit constant',
+      [('dashlive/server/events/scte35_events.py', "        pts &= 0x1FFFFFFFF  # PTS field is 33 bits\n", "        pts &= (1 << 34) - 1\n")], 'R14.2', 'create_binary_signal'),
+    V('neutral: pts masked with a computed 33 bit constant',
+      [('dashlive/server/events/scte35_events.py', "        pts &= 0x1FFFFFFFF  # PTS field is 33 bits\n", "        pts &= (1 << 33) - 1\n")]),
     V('pts no longer masked to 33 bits',
       [('dashlive/server/events/scte35_events.py', "        pts &= 0x1FFFFFFFF  # PTS field is 33 bits\n", "")], 'R14.2', 'create_binary_signal'),
     V('interval guard removed',
